@@ -184,6 +184,61 @@ theorem progress (pr : Nat → Path) (st : State) (hok : AllOk pr st)
       exact sharedMoves k hk
   · exact can_step pr st i s g r hcur hmove
 
+/-! ### text-dependent work happens outside transactions -/
+
+def ConnWork (p : Path) (c : Conn) : Prop := workFrom c.inTxn ((p.drop c.pc).map (·.1)) = true
+
+theorem next_work (p : Path) (c : Conn) (s : Stmt) (g : Bool) (r : Path) (rp pd sh : Bool)
+    (hcur : p.drop c.pc = (s, g) :: r) (h : ConnWork p c) : ConnWork p (next c s rp pd sh) := by
+  unfold ConnWork at h ⊢
+  have hr := drop_cons hcur
+  rw [hcur] at h
+  cases s <;> cases hl : c.lock <;> cases ht : c.inTxn <;>
+    simp [ht, workFrom] at h <;>
+    (try (cases rp)) <;> (try (cases pd)) <;> (try (cases sh)) <;>
+    simp_all [next, workFrom]
+
+def AllWork (pr : Nat → Path) (st : State) : Prop := ∀ i, ConnWork (pr i) (st i)
+
+theorem step_allWork {pr st i st'} (h : AllWork pr st) (hs : Step pr st i st') : AllWork pr st' := by
+  obtain ⟨s, g, r, rp, pd, sh, hcur, _, _, _, rfl⟩ := hs
+  intro j
+  unfold upd
+  split
+  · next hj => subst hj; exact next_work _ _ _ _ _ _ _ _ hcur (h j)
+  · exact h j
+
+theorem run_allWork {pr st0 sched st} (h : Run pr st0 sched st) : AllWork pr st0 → AllWork pr st := by
+  induction h with
+  | nil => exact id
+  | cons hs _ ih => exact fun h0 => ih (step_allWork h0 hs)
+  | skip _ ih => exact ih
+
+theorem init_allWork (pr : Nat → Path) (hpr : ∀ i, pathWorkOk (pr i) = true) : AllWork pr init := by
+  intro i
+  simpa [ConnWork, init, pathWorkOk] using hpr i
+
+/-- a connection about to do text-dependent work is outside every transaction and holds no lock -/
+theorem work_holds_nothing {p : Path} {c : Conn} {g : Bool} {r : Path} (hok : ConnOk p c) (hw : ConnWork p c)
+    (hcur : p.drop c.pc = (.work, g) :: r) : c.inTxn = false ∧ c.lock = .none := by
+  unfold ConnWork at hw
+  rw [hcur] at hw
+  have ht : c.inTxn = false := by
+    cases hti : c.inTxn with
+    | false => rfl
+    | true => simp [hti, workFrom] at hw
+  refine ⟨ht, ?_⟩
+  cases hl : c.lock with
+  | none => rfl
+  | shared => have := hok.2.2.1 (by rw [hl]; simp); rw [ht] at this; cases this
+  | reserved => have := hok.2.2.1 (by rw [hl]; simp); rw [ht] at this; cases this
+  | pending => have := hok.2.2.1 (by rw [hl]; simp); rw [ht] at this; cases this
+
+theorem pathWorkOk_of_noWork {p : Prog} (h : noWorkInsideTxn p = true) {q : Path} (hq : q ∈ paths p) :
+    pathWorkOk q = true := by
+  unfold noWorkInsideTxn at h
+  exact List.all_eq_true.mp h q hq
+
 /-! ### membership of program paths -/
 
 theorem pathOk_of_noUpgrade {p : Prog} (h : noUpgrade p = true) {q : Path} (hq : q ∈ paths p) :
